@@ -528,14 +528,16 @@ class Parser:
     def parse_document(self) -> Document:
         """Parse a complete OCTAVE document."""
         doc = Document()
-        self.skip_whitespace()
+        # Comments above the envelope are kept: they are carried to the first body node
+        # (skipping them lost them without a receipt).
+        lead_in_comments = self.collect_leading_comments()
 
         # Issue #48 Phase 2: Check for grammar sentinel OCTAVE::VERSION
         # The lexer now produces a GRAMMAR_SENTINEL token for this pattern
         if self.current().type == TokenType.GRAMMAR_SENTINEL:
             doc.grammar_version = self.current().value  # Version string from lexer
             self.advance()
-            self.skip_whitespace()
+            lead_in_comments += self.collect_leading_comments()
 
         # Check for explicit envelope
         if self.current().type == TokenType.ENVELOPE_START:
@@ -550,7 +552,7 @@ class Parser:
         # Whole-line comments in the document header (between the envelope and META, or between
         # META and the separator) have no node of their own. They are carried to the first body
         # node; left in place they hid META (read as an ordinary block) and the separator (dropped).
-        header_comments = self._take_comments_before(
+        header_comments = lead_in_comments + self._take_comments_before(
             lambda t: t.type == TokenType.IDENTIFIER and t.value == "META"
         )
 
@@ -624,6 +626,8 @@ class Parser:
         # Expect END envelope (lenient - allow missing)
         if self.current().type == TokenType.ENVELOPE_END:
             self.advance()
+            # Comments below the END marker are kept as document trailing comments
+            doc.trailing_comments = list(doc.trailing_comments or []) + self.collect_leading_comments()
 
         return doc
 
